@@ -268,6 +268,29 @@ theorem maxEntry_normalise (M : List (List ℝ)) (hpos : 0 < maxEntry M) : maxEn
     unfold maxEntry; rw [add_zero]
     exact (div_le_one hpos).2 (le_maxList _ y hy)
 
+/-- With the regulariser kept (`jitter = j ≥ 0`, `1e-30` in the code): the largest entry of `M / (M.max() + j)` is
+`m / (m + j)` for `m = M.max() > 0` — within `j / m` of one. -/
+theorem maxEntry_normalise_jitter (M : List (List ℝ)) (j : ℝ) (hj : 0 ≤ j) (hpos : 0 < maxEntry M) :
+    maxEntry (normalise j M) = maxEntry M / (maxEntry M + j) := by
+  have hflat : (normalise j M).flatten = M.flatten.map (· / (maxEntry M + j)) := by
+    unfold normalise; simp only []; rw [List.map_flatten]
+  have hden : 0 < maxEntry M + j := by linarith
+  unfold maxEntry at hpos hden ⊢
+  rw [hflat]
+  have hne : M.flatten ≠ [] := by
+    intro h; rw [h] at hpos; simp [maxList] at hpos
+  refine maxList_eq_of _ _ ?_ ?_
+  · exact List.mem_map.2 ⟨maxList M.flatten, maxList_mem _ hne, rfl⟩
+  · intro x hx
+    obtain ⟨y, hy, rfl⟩ := List.mem_map.1 hx
+    exact div_le_div_of_nonneg_right (le_maxList _ y hy) hden.le
+
+theorem normalise_jitter_close (m j : ℝ) (hm : 0 < m) (hj : 0 ≤ j) : |m / (m + j) - 1| ≤ j / m := by
+  have hden : 0 < m + j := by linarith
+  have h : m / (m + j) - 1 = -(j / (m + j)) := by field_simp; ring
+  rw [h, abs_neg, abs_of_nonneg (div_nonneg hj hden.le)]
+  exact div_le_div_of_nonneg_left hj hm (by linarith)
+
 /-- Diagonal mode. -/
 theorem maxList_normaliseVec (v : List ℝ) (hpos : 0 < maxList v) : maxList (normaliseVec 0 v) = 1 := by
   have hne : v ≠ [] := by
